@@ -3,6 +3,7 @@ NEXT NNext
 CONSTANTS
   Mode = "pairs"
   Depth = 1
+  NFixed = {}
   NBug = "none"
   NVSpace = "none"
   NCompoundV = "none"
